@@ -162,8 +162,13 @@ KNOWN = {
     "K-rename-cols@C06": lambda case, sql, inv, d: "rename" in sql and inv in ("leaf", "root", "connect", "graph", "path")
     and ("one_node_path" in d or "rebuild_raised" in d or bool(_involved_tables(d) & _renamed(sql))),
     "K-lateral-alias@C06": lambda case, sql, inv, d: "lateral view" in sql and inv == "root",
+    # the nested analysis of a scalar subquery returns bare qualifiers: a schema-qualified table (or a 3-part column reference) inside it
+    # comes back as <default>.<table> or <default>.<schema>
     "K-scalar-subquery-schema@C06": lambda case, sql, inv, d: inv == "root" and d.get("root_table_not_read_by_script", "").startswith("<default>.")
-    and re.search(r"\(\s*select.{0,200}?from\s+\w+\." + re.escape(d["root_table_not_read_by_script"].split(".")[-1]) + r"\b", sql, flags=re.S) is not None,
+    and re.search(r"\(\s*select.{0,400}?(\b" + re.escape(d["root_table_not_read_by_script"].split(".")[-1]) + r"\.\w|\w\." +
+                  re.escape(d["root_table_not_read_by_script"].split(".")[-1]) + r"\b)", sql, flags=re.S) is not None,
+    # a wildcard that could not be wired (star next to other select items / over a mixed scope: K-star-mixed) stays behind as a one-node path
+    "K-stranded-wildcard@C06": lambda case, sql, inv, d: inv == "path" and "one_node_path" in d and d["one_node_path"][0].endswith(".*"),
     "K-scalar-select@C06": lambda case, sql, inv, d: inv == "root" and re.search(r"(select|,)\s*\(\s*select\b", sql) is not None,
 }
 
